@@ -45,6 +45,8 @@ func runC19(c *Ctx) {
 	ruleNoLockCopy(c, "GUARDED")
 	for _, m := range findMultiListeners(c, "GUARDED") {
 		rulePumpBuffer(c, m, "GUARDED")
+		// results equal to some sequential order: each read has its own reply channel, requests are answered one at a time
+		ruleCancelPump(c, m, "HANDOFF")
 	}
 	// "results equal to some sequential order": a clock value read before the collector lock is taken can be older than a
 	// start time a concurrent scrape installs, which no sequential order produces
